@@ -136,6 +136,7 @@ func (w *WaterMark) addIndex(index uint64, delta int32) {
 	win := w.ensureWindow(index)
 	offset := index - win.base
 	if offset < uint64(len(win.slots)) {
+		VerifYield("wm.add.slot", index, offset)
 		win.slots[offset].Add(delta)
 	}
 	w.tryAdvance()
@@ -143,10 +144,12 @@ func (w *WaterMark) addIndex(index uint64, delta int32) {
 
 func (w *WaterMark) setLastIndex(index uint64) {
 	for {
+		VerifYield("wm.last.load", index)
 		cur := atomic.LoadUint64(&w.lastIndex)
 		if index <= cur {
 			return
 		}
+		VerifYield("wm.last.cas", index, cur)
 		if atomic.CompareAndSwapUint64(&w.lastIndex, cur, index) {
 			return
 		}
